@@ -390,8 +390,19 @@ def tolerance_games(rnd, n):
 
 def random_games(rnd, n):
     kind = rnd.choice(["sa", "sa", "sa-broken", "sam", "sam-broken", "convex", "convex-broken", "additive", "neg-additive",
-                       "random", "random", "v0", "v0-small-among-huge", "near-additive-huge"] + (["matching", "matching-one-split", "matching-one-split"] if n >= 4 else []))
+                       "random", "random", "v0", "v0-small-among-huge", "near-additive-huge", "huge-opposite-parts"] + (["matching", "matching-one-split", "matching-one-split"] if n >= 4 else []))
     N = 2 ** n
+    if kind == "huge-opposite-parts":
+        # two players with huge values of opposite sign whose union is small: the documented tolerance is relative to |v(U)|, not to
+        # the size of the parts — a violation (or a margin) of 1 or 2 at such a coalition is far above it
+        H = rnd.choice([10 ** 10, 2 ** 34, 2 ** 40])
+        i_, j_ = rnd.sample(range(n), 2)
+        w = [rnd.randint(-2, 3) for _ in range(n)]
+        w[i_], w[j_] = H, -H + rnd.randint(-2, 3)
+        v = [Fraction(sum(w[k_] for k_ in range(n) if c >> k_ & 1)) for c in range(N)]
+        both = [c for c in range(N) if c >> i_ & 1 and c >> j_ & 1]
+        v[rnd.choice(both)] += rnd.choice([-2, -1, 1, 2])
+        return kind, v
     if kind == "near-additive-huge":
         # an additive cost game of magnitude 10^6 … 2^40 with ONE coalition moved by 1 (or 1/2): additive "to within 1e-6 relative",
         # and not additive — monotonicity and superadditivity are exact statements about it
